@@ -195,6 +195,7 @@ def PlatData.dec (fmt : Nat) : D PlatData := do
   let nFrames ← D.nat32
   let chans ← D.rep n D.u16
   let plats ← D.rep n (decRuns 6 nFrames)
+  D.guard (nodupB chans)          -- add_platform refuses a channel already in use
   pure ⟨freq, startTime, nFrames, chans, plats⟩
 
 def PlatData.size (x : PlatData) : Nat :=
